@@ -461,3 +461,25 @@ func modelSubRequestKey(url string, rq map[string]interface{}) string {
 	vars, _ := rq["variables"].(map[string]interface{})
 	return url + "|" + kind + "|" + hx.Canon(normSels(sels, true)) + "|" + canonVars(vars)
 }
+
+
+// foreignLookupID: a follow-up lookup `node(id: $id)` must carry, as $id, the id of an entity of
+// the data set (the id found at its insertion point) — never a value that came from the client.
+// Returns a description of the offending value, or "".
+func foreignLookupID(cf *coreFed, c *fed.Call) string {
+	if !strings.Contains(c.Query, "node(id: $id)") {
+		return ""
+	}
+	v, ok := c.Variables["id"]
+	if !ok {
+		return "no id variable at all"
+	}
+	s, isStr := v.(string)
+	if !isStr {
+		return "id = " + hx.Canon(v)
+	}
+	if _, exists := cf.F.Data.Entities[s]; !exists {
+		return "id = " + hx.Canon(v)
+	}
+	return ""
+}
